@@ -63,15 +63,17 @@ type srvInst struct {
 	late         func(i int)
 	methodHeader string
 	tunnel       func(verb, query string, body []byte) ([]byte, http.Header)
-	client       func(rt http.RoundTripper, resolver interface{}, threshold int) *clientFns
+	client       func(rt http.RoundTripper, resolver interface{}, threshold int, cfg *clientCfg) *clientFns
 }
 
 // ONE restli.Client behind three doors: a whole call; building a request with the exported New*Request functions;
-// sending a request built earlier
+// sending a request built earlier.  The raw doors are the module's (srv_*.go); call / build / send below add what was seen
+// ON THE WIRE for the request and the state of the caller's configuration afterwards (client.go).
 type clientFns struct {
-	call  func(op, id string) string
-	build func(op, id string) (*http.Request, error)
-	send  func(req *http.Request) string
+	callRaw  func(op, id string) string
+	buildRaw func(op, id string) (*http.Request, error)
+	sendRaw  func(req *http.Request) string
+	cfg      *clientCfg
 }
 
 type d2Module struct {
@@ -444,10 +446,12 @@ type handlerTransport struct{ h http.Handler }
 
 func (t handlerTransport) RoundTrip(req *http.Request) (*http.Response, error) {
 	rec := httptest.NewRecorder()
+	body := recordWire(req) // the request as it arrives on the wire, filed under the id its caller put in the context
 	r2 := req.Clone(req.Context())
 	r2.RequestURI = req.URL.RequestURI()
-	if r2.Body == nil {
-		r2.Body = http.NoBody
+	r2.Body = http.NoBody
+	if body != nil {
+		r2.Body = io.NopCloser(bytes.NewReader(body))
 	}
 	yield(1)
 	t.h.ServeHTTP(rec, r2)
@@ -460,11 +464,17 @@ var clientOps = []string{"get", "get-shared", "get-sub", "create", "delete", "fi
 	"fail", "fail-nostatus", "missing", "update", "update-long", "partial-update-long", "create-long",
 	"wide-get", "wide-create", "wide-update", "wide-find-all", "wide-find-rec", "wide-batch-get", "wide-action"}
 
-// per kind of client (resolver): the operations driven through it
-var opsFor = map[string][]string{"simple": clientOps,
-	"d2": {"get", "create", "delete", "find", "get-all", "batch-get", "action", "update-long", "create-long", "find-long"}} // "items" is the one d2 service
+// per kind of client (client.go clientKindCfg: resolver and ExtraRequestHeaders configuration): the operations driven through it
+var opsFor = map[string][]string{"simple": clientOps, "shared": clientOps,
+	"d2":     {"get", "create", "delete", "find", "get-all", "batch-get", "action", "update-long", "create-long", "find-long"}, // "items" is the one d2 service
+	"nilmap": {"get", "create", "delete", "find-long", "update", "update-long", "wide-get"},
+	"bare":   {"get", "create", "delete", "find-long", "update", "update-long", "wide-get"}}
 
-var clientKinds = []string{"simple", "d2"}
+var clientKinds = []string{"simple", "d2", "shared", "nilmap", "bare"}
+
+// requests built now and sent later go through the simple client (built:) or the one with the shared header set (built-shared:)
+var builtKinds = map[string]string{"built": "simple", "built-shared": "shared"}
+var builtKindNames = []string{"built", "built-shared"}
 
 // requests built with NewJsonRequest / NewCreateRequest / NewGetRequest / NewDeleteRequest and sent later; the -long ones
 // are tunnelled (query above the threshold), three of them with a body (multipart/mixed)
@@ -481,26 +491,30 @@ func buildSend(c *clientFns, op, id string) (*http.Request, string) {
 
 func canon(s, id string) string { return strings.ReplaceAll(s, id, "{id}") }
 
-// serial expectations of the client operations (each twice, as serialServer)
-func serialClient(clients map[string]*clientFns, out *childOut, tag string) map[string]string {
+// serial expectations of the client operations (each twice, as serialServer).  get() hands out the clients for the next
+// request: the same ones every time (a serial HISTORY on one client per kind), or brand-new ones (scenario expect)
+func serialClient(get func() map[string]*clientFns, out *childOut, tag string) map[string]string {
 	expect := map[string]string{}
-	for _, op := range buildOps { // serial: build one, send it, build the next
-		obs := [2]string{}
-		for k, id := range []string{idSerialA, idSerialB} {
-			req, e := buildSend(clients["simple"], op, id)
-			if req != nil {
-				e = clients["simple"].send(req)
+	for _, bk := range builtKindNames {
+		for _, op := range buildOps { // serial: build one, send it, build the next
+			obs := [2]string{}
+			for k, id := range []string{idSerialA, idSerialB} {
+				c := get()[builtKinds[bk]]
+				req, e := buildSend(c, op, id)
+				if req != nil {
+					e = c.send(req)
+				}
+				obs[k] = canon(e, id)
 			}
-			obs[k] = canon(e, id)
+			if obs[0] != obs[1] {
+				out.mismatch(tag, "serial-run-not-deterministic", bk+":"+op, obs[0], obs[1])
+				continue
+			}
+			expect[bk+":"+op] = obs[0]
 		}
-		if obs[0] != obs[1] {
-			out.mismatch(tag, "serial-run-not-deterministic", "built:"+op, obs[0], obs[1])
-			continue
-		}
-		expect["built:"+op] = obs[0]
 	}
 	for _, kind := range clientKinds {
-		call := clients[kind].call
+		call := func(op, id string) string { return get()[kind].call(op, id) }
 		for _, op := range opsFor[kind] {
 			a := canon(call(op, idSerialA), idSerialA)
 			b := canon(call(op, idSerialB), idSerialB)
@@ -525,11 +539,16 @@ func runClient(cc childCfg, mod srvModule, dm d2Module) childOut {
 		d.apply(d.urisPath+"/"+node, &b)
 	}
 	announce("n1", map[string]float64{"http://h1.test:80/": 1, "http://h2.test:80/": 2})
-	clients := map[string]*clientFns{
-		"simple": inst.client(handlerTransport{inst.handler}, nil, 200),
-		"d2":     inst.client(handlerTransport{inst.handler}, d.resolver, 200),
+	clients := newClients(inst, d)
+	// a serial HISTORY on one client per kind; every answer (the request as it went over the wire included) must be the one a
+	// brand-new client gives (the serial child process, when its answers were handed over)
+	expect := serialClient(func() map[string]*clientFns { return clients }, &out, "client:"+mod.name)
+	for k, want := range loadExpect(cc.Expect) {
+		if got, ok := expect[strings.TrimPrefix(k, "client:")]; ok && strings.HasPrefix(k, "client:") && got != want {
+			out.Mismatches = append(out.Mismatches, mismatch{Scenario: "client:" + mod.name, What: "client-config", Name: k[len("client:"):], Want: clip(want), Got: clip(got),
+				Request: "the serial phase of the client scenario: every operation in turn, twice, on ONE client per kind, compared with a brand-new client per request"})
+		}
 	}
-	expect := serialClient(clients, &out, "client:"+mod.name)
 	if s := inst.shared(); s != before {
 		out.mismatch("client:"+mod.name, "shared-object-mutated-serially", "shared", before, s)
 	}
@@ -568,10 +587,7 @@ func runClient(cc childCfg, mod srvModule, dm d2Module) childOut {
 			r := hx.NewRand(cc.Seed*7000003 + uint64(g))
 			<-start
 			for i := 0; i < cc.Per; i++ {
-				kind := "simple"
-				if r.Intn(3) == 0 {
-					kind = "d2"
-				}
+				kind := []string{"simple", "simple", "shared", "shared", "d2", "d2", "nilmap", "bare"}[r.Intn(8)]
 				ops := opsFor[kind]
 				op := ops[r.Intn(len(ops))]
 				want, ok := expect[kind+":"+op]
@@ -593,25 +609,27 @@ func runClient(cc childCfg, mod srvModule, dm d2Module) childOut {
 						err    string
 					}
 					var bs []built
+					bk := builtKindNames[r.Intn(2)]
+					bc := clients[builtKinds[bk]]
 					for j := 0; j < 3; j++ {
 						bop, bid := buildOps[r.Intn(len(buildOps))], reqID(g, 5000+i*4+j)
-						req, e := buildSend(clients["simple"], bop, bid)
+						req, e := buildSend(bc, bop, bid)
 						bs = append(bs, built{bop, bid, req, e})
 					}
 					for j := len(bs) - 1; j >= 0; j-- {
 						b := bs[j]
-						w, ok := expect["built:"+b.op]
+						w, ok := expect[bk+":"+b.op]
 						if !ok {
 							continue
 						}
 						got := b.err
 						if b.req != nil {
-							got = clients["simple"].send(b.req)
+							got = bc.send(b.req)
 						}
-						counts[g]["built:"+b.op]++
+						counts[g][bk+":"+b.op]++
 						if got = canon(got, b.id); got != w {
 							mu.Lock()
-							out.mismatch("client:"+mod.name, "built-request-differs-from-serial-run", "built:"+b.op, w, got)
+							out.mismatch("client:"+mod.name, "built-request-differs-from-serial-run", bk+":"+b.op, w, got)
 							mu.Unlock()
 						}
 					}
@@ -635,7 +653,7 @@ func runClient(cc childCfg, mod srvModule, dm d2Module) childOut {
 		<-start
 		for i := 0; i < cc.Per*2; i++ {
 			op, id := buildOps[r.Intn(len(buildOps))], reqID(80, i)
-			req, e := buildSend(clients["simple"], op, id)
+			req, e := buildSend(clients["shared"], op, id) // the client whose ExtraRequestHeaders callback returns ONE shared header set
 			pipe <- pending{op, id, req, e}
 		}
 	}()
@@ -643,15 +661,15 @@ func runClient(cc childCfg, mod srvModule, dm d2Module) childOut {
 		defer wg.Done()
 		<-start
 		for p := range pipe {
-			w, ok := expect["built:"+p.op]
+			w, ok := expect["built-shared:"+p.op]
 			if !ok {
 				continue
 			}
 			got := p.err
 			if p.req != nil {
-				got = clients["simple"].send(p.req)
+				got = clients["shared"].send(p.req)
 			}
-			pipeCount["built:"+p.op]++
+			pipeCount["built-shared:"+p.op]++
 			if got = canon(got, p.id); got != w {
 				mu.Lock()
 				out.mismatch("client:"+mod.name, "built-request-differs-from-serial-run", "pipelined:"+p.op, w, got)
